@@ -12,7 +12,8 @@ CLAUSE → THEOREM TABLE (review R3; "src_" = the same statement for the functio
 | clause of properties.jsonl C01                                   | theorem(s)                                              | strength |
 |------------------------------------------------------------------|---------------------------------------------------------|----------|
 | every entry of by_group = the metric on exactly the rows         | `byGroup_eq_table` (whole table, one equation),         | full     |
-|   carrying that combination of feature values                    | `byGroup_cell`, `byGroup_nonempty`, `src_byGroup_cell`, |          |
+|   carrying that combination of feature values                    | `src_byGroup_eq_table` (same for the lifted text),      |          |
+|                                                                  | `byGroup_cell`, `byGroup_nonempty`, `src_byGroup_cell`, |          |
 |                                                                  | `byGroup_partition`, `stratum_partition`                |          |
 | … with the per-sample parameters sliced the same way             | generic `f`: by construction (payload); dict of metrics | full     |
 |                                                                  | with DIFFERENT params per metric, one shared `all_data`:|          |
@@ -20,16 +21,19 @@ CLAUSE → THEOREM TABLE (review R3; "src_" = the same statement for the functio
 |                                                                  | default: `sliceAt`), `multi_metric_own_params`,         |          |
 |                                                                  | `multi_column_eq_single`, `single_eq_model`             |          |
 | overall = the metric on all rows                                 | `overall_eq`, `src_overall_eq`, `multi_overall_exact`   | full     |
-| … on the rows of each control-feature combination                | `overall_eq_table`, `overall_control_cell/_index`,      | full     |
+| … on the rows of each control-feature combination                | `overall_eq_table`, `src_overall_eq_table`,             | full     |
+|                                                                  | `overall_control_cell/_index`,                          |          |
 |                                                                  | `src_overall_control_cell`, `byGroup_stratum_in_overall`|          |
-| by_group index is EXACTLY the set of observed values (1 feature) | `byGroup_index_eq_product` (list equality, order incl.),| full     |
+| by_group index is EXACTLY the set of observed values (1 feature) | `byGroup_index_single_eq` (1 feature, as a list),       | full     |
+|                                                                  | `byGroup_index_eq_product` (list equality, order incl.),|          |
 |   / the Cartesian product of the observed values (several)       | `byGroup_levels_spec` (each factor = sorted distinct    |          |
 |                                                                  | values of that column over ALL rows, not per stratum),  |          |
 |                                                                  | `byGroup_index` (iff), `_single`, `_nodup`, `_sorted`,  |          |
 |                                                                  | `byGroup_index_cross`, `byGroup_index_length`           |          |
 | a combination that contains no rows is reported as NaN           | `byGroup_empty` (present in the index WITH value NaN),  | full     |
 |   rather than dropped or filled                                  | `byGroup_empty_only_nan` (no other value under that     |          |
-|                                                                  | key), `byGroup_nonempty` (NaN placeholder ONLY there)   |          |
+|                                                                  | key), `byGroup_nonempty` (NaN placeholder ONLY there),  |          |
+|                                                                  | `driver_nan_distinct` (the drivers' NaN is no number)   |          |
 | quantifier: any length ≥ 1                                       | no theorem needs `rows ≠ []`; `byGroup_nil`/`overall_nil`| n = 0 is |
 |                                                                  | say what the model does at n = 0 (empty by_group,       | outside; |
 |                                                                  | overall = f []): real MetricFrame does the same for     | driver   |
@@ -872,6 +876,40 @@ theorem overall_eq_table (nanv : β) (ncf nsf : Nat) (hn : 0 < ncf) (f : List α
         (c, if rows.filter (fun r => r.cf == c) = [] then nanv
             else f ((rows.filter (fun r => r.cf == c)).map (·.dat)))) :=
   applyFunctions_eq_table nanv Row.ckey ncf hn f rows (keyLen_ckey hwf)
+
+/-- one sensitive feature, no control feature, as a LIST: the index is the sorted list of the distinct observed
+    values (as 1-tuples) — "exactly the set of observed values" -/
+theorem byGroup_index_single_eq (nanv : β) (f : List α → β) (rows : List (Row α)) (hwf : WF 0 1 rows) :
+    keys (byGroup nanv 0 1 f rows) = (uniq (rows.map (fun r => (r.cf ++ r.sf).getD 0 ""))).map (fun a => [a]) := by
+  rw [byGroup_index_eq_product nanv 0 1 (by omega) f rows hwf]
+  have : levels Row.key (0 + 1) rows = [uniq (rows.map (fun r => (r.cf ++ r.sf).getD 0 ""))] := by
+    simp [levels, col, List.map_map, Function.comp_def, Row.key]
+  rw [this, product_single]
+
+/-- the whole-table equation for the function text lifted from /repo (`DisaggregatedResult.create(...).by_group`) -/
+theorem src_byGroup_eq_table (nanv : β) (ncf nsf : Nat) (hn : 0 < ncf + nsf) (f : List α → β)
+    (rows : List (Row α)) (hwf : WF ncf nsf rows) :
+    FrameSrc.create_by_group nanv rows f (sfNames nsf) (cfNames ncf) =
+      (product (levels Row.key (ncf + nsf) rows)).map (fun k =>
+        (k, if rows.filter (fun r => r.cf ++ r.sf == k) = [] then nanv
+            else f ((rows.filter (fun r => r.cf ++ r.sf == k)).map (·.dat)))) := by
+  rw [src_byGroup_eq_model nanv ncf nsf f rows hwf]
+  exact byGroup_eq_table nanv ncf nsf hn f rows hwf
+
+/-- … and for `create(...).overall` with control features -/
+theorem src_overall_eq_table (nanv : β) (ncf nsf : Nat) (hn : 0 < ncf) (f : List α → β)
+    (rows : List (Row α)) (hwf : WF ncf nsf rows) :
+    FrameSrc.create_overall nanv rows f (sfNames nsf) (cfNames ncf) =
+      (product (levels Row.ckey ncf rows)).map (fun c =>
+        (c, if rows.filter (fun r => r.cf == c) = [] then nanv
+            else f ((rows.filter (fun r => r.cf == c)).map (·.dat)))) := by
+  rw [src_overall_eq_model nanv ncf nsf f rows hwf]
+  exact overall_eq_table nanv ncf nsf hn f rows hwf
+
+/-- the NaN the drivers fill in (`Cell.nan`) differs from every number a metric can return, in particular from 0:
+    "reported as NaN rather than … filled" is not blurred by the choice of `nanv` -/
+theorem driver_nan_distinct (q : Rat) : Cell.nan ≠ Cell.ofRat q := by
+  intro h; cases h
 
 /-- n = 0 (outside the quantifier "any length >= 1"): the model's `by_group` is empty.  Real MetricFrame: the same
     for Series / DataFrame / dict features, IndexError for a list (`features[0]`).  The drivers reject n = 0. -/
